@@ -106,6 +106,20 @@ pub fn gen(idx: u64, rng: &mut Rng, tier: Tier) -> Scn {
             _ => ops.push(TimedOp { when, op: Op::Publish }),
         }
     }
+    // a full cycle of the 16-bit space while handles / objects stay live: the cursor comes back to TOIs
+    // that are still in use (skip logic, wrap-around, early releases)
+    if width.bits() == 16 && rng.chance(0.5) {
+        let at = rng.below(ops.len() as u64 + 1) as usize;
+        let when = if at < ops.len() { ops[at].when.clone() } else { When::AtUs(t + 500) };
+        let n = 65_530 + rng.range(0, 12) as u32;
+        ops.insert(at, TimedOp { when, op: Op::ChurnToi(n) });
+        for _ in 0..rng.range(1, 4) {
+            t += 1000;
+            ops.push(TimedOp { when: When::AtUs(t), op: Op::AllocToi });
+            n_handles += 1;
+        }
+        let _ = n_handles;
+    }
     t += 1000;
     for (i, o) in objects.iter().enumerate() {
         if o.carousel.is_some() {
@@ -195,19 +209,60 @@ fn run_sequential(scn: &SenderScn, ctx: &Ctx, scratch: &Path) {
             }
             // the object is live until it is removed / finished AND has stopped emitting
             let removed = removal_seq(&trace, *i);
-            let last_pkt = trace.pkts.iter().filter(|p| p.dec.toi == *v && p.seq > r.seq).map(|p| p.seq).max();
             let mine: Vec<&Transfer> = tr.list.iter().filter(|t| t.obj == *i).collect();
+            // (packets are attributed through the transfers: a TOI may be reused by a later object)
+            let last_pkt = mine.iter().flat_map(|t| t.pkts.iter()).map(|p| trace.pkts[*p].seq).max();
             let finished = if scn.objects[*i].carousel.is_none() && mine.len() as u32 >= scn.objects[*i].max_transfer_count {
                 mine.last().and_then(|t| t.stop_seq)
             } else {
                 None
             };
             let until = match (removed, finished) {
+                (Some(a), Some(f)) if f < a => f,
                 (Some(a), _) => a.max(last_pkt.unwrap_or(0)),
                 (None, Some(f)) => f,
                 (None, None) => u64::MAX,
             };
             live.push(Live { toi: *v, from: r.seq, until, what: format!("object {}", i) });
+        }
+    }
+    // values returned during a churn: non-zero, within the width, never a TOI that is live at that moment
+    for (seq, values) in &trace.churn_values {
+        let live_now: Vec<&Live> = live.iter().filter(|l| l.from < *seq && *seq < l.until).collect();
+        let mut reported = false;
+        for (k, v) in values.iter().enumerate() {
+            if *v == 0 || *v > max_of(width) {
+                check_value(ctx, *v, width, &format!("allocate_toi() #{} of a churn of {}", k, values.len()));
+                reported = true;
+            }
+            if let Some(l) = live_now.iter().find(|l| l.toi == *v) {
+                violate(
+                    ctx,
+                    "C15/toi-not-unique-while-live",
+                    &format!("{}-bit", width.bits()),
+                    format!("TOI {} returned by allocation #{} of a churn of {} at event {} while {} (since event {}) is still live", v, k, values.len(), seq, l.what, l.from),
+                );
+                reported = true;
+            }
+            if reported {
+                break;
+            }
+        }
+        ctx.borrow_mut().count_fault("toi-space-full-cycle");
+    }
+    // a live TOI is reserved: at every sample the allocator holds at least as many reservations as there
+    // are live handles and objects (a TOI becomes reusable only after its handle or object was released)
+    for (seq, reserved) in &trace.toi_reserved_samples {
+        let n_live = live.iter().filter(|l| l.from <= *seq && *seq < l.until).count();
+        if *reserved < n_live {
+            let who: Vec<String> = live.iter().filter(|l| l.from <= *seq && *seq < l.until).map(|l| format!("{}={}", l.what, l.toi)).collect();
+            violate(
+                ctx,
+                "C15/live-toi-not-reserved",
+                &format!("{}-bit", width.bits()),
+                format!("at event {} only {} TOIs are reserved in the allocator but {} are live: {}", seq, reserved, n_live, who.join(", ")),
+            );
+            break;
         }
     }
     // uniqueness while live
